@@ -129,6 +129,7 @@ theorem denoteStep_congr (g : PGraph) (inp : Nat → Option (Arr Val)) (d1 d2 : 
   case reshape c o => rw [h c (by simp)]
   case stack cs a => rw [List.map_congr_left (fun x hx => h x hx)]
   case concat cs a => rw [List.map_congr_left (fun x hx => h x hx)]
+  case index c ix => rw [h c (by simp)]
   case alias c => rw [h c (by simp)]
 
 theorem denote_fuel_irrel {g : PGraph} (hw : WFG g) (inp : Nat → Option (Arr Val)) :
